@@ -15,6 +15,7 @@ mod xpy;
 mod families;
 mod xradau;
 mod xbdf;
+mod xcont;
 
 fn main() {
     let args: Vec<String> = std::env::args().collect();
@@ -34,6 +35,7 @@ fn main() {
         "xpy" => xpy::run(rest),
         "xradau" => xradau::run(rest),
         "xbdf" => xbdf::run(rest),
+        "xcont" => xcont::run(rest),
         "sym-check" => families::sym(rest),
         "mass-check" => families::mass(rest),
         "accuracy-check" => families::accuracy(rest),
